@@ -179,8 +179,8 @@ class C11(Property):
             "domid/for/tabindex settings, optional contents; plus Element.x/.xa cases.  Hostile alphabet: quotes, angle brackets, "
             "ampersand, ;, #, control characters, NUL, closing-tag look-alikes, half-finished references, non-BMP.  non-trivial = "
             "some data string contains one of \" < > & or a control character; distinct = distinct canonical case JSON")
-    quick_n = 6000
-    thorough_n = 200000
+    quick_n = 100000
+    thorough_n = 600000
 
     # ------------------------------------------------------------------ cases
     def corpus(self):
